@@ -685,6 +685,14 @@ func (r *realm) authClient(sid wamp.ID, client wamp.Peer, details wamp.Dict) (*w
 
 // getAuthenticator finds the first authenticator registered for the methods.
 func (r *realm) getAuthenticator(methods []string) (auth auth.Authenticator, authMethod string) {
+	// The realm may be removed while a client is still in its handshake.
+	// Hold the close lock, as handleSession does, so that the realm's action
+	// channel cannot be closed while posting to it.
+	r.closeLock.Lock()
+	defer r.closeLock.Unlock()
+	if r.closed {
+		return nil, ""
+	}
 	sync := make(chan struct{})
 	r.actionChan <- func() {
 		// Iterate through the methods and see if there is an Authenticator for
